@@ -1664,25 +1664,42 @@ class Executor:
             return h(self, node, env)
         if len(node.items) != 1:
             raise OutOfSubset('with statement with several managers')
-        if not isinstance(mgr, VObj):
-            raise OutOfSubset(f'with statement on {mgr!r}')
+        if isinstance(mgr, VObj):
+            def enter():
+                return self.call_method(mgr, '__enter__', [], {}, node)
+
+            def leave(args):
+                return self.call_method(mgr, '__exit__', args, {}, node)
+        else:
+            # a manager outside the subset (a lock of the threading module, ...): the contract supplies models of its two methods, keyed by the source
+            # text of the manager expression
+            text = ast.unparse(node.items[0].context_expr)
+            h_enter, h_exit = self.hooks.get(text + '.__enter__'), self.hooks.get(text + '.__exit__')
+            if h_enter is None or h_exit is None:
+                raise OutOfSubset(f'with statement on {mgr!r}')
+
+            def enter():
+                return h_enter(self, node, [], {})
+
+            def leave(args):
+                return h_exit(self, node, args, {})
         # Python semantics of `with`: __enter__; body; __exit__(exc info) on every exit; an
         # exception propagates unless __exit__ returns a true value.
-        entered = self.call_method(mgr, '__enter__', [], {}, node)
+        entered = enter()
         if node.items[0].optional_vars is not None:
             self.assign_target(node.items[0].optional_vars, entered, env)
         try:
             self.exec_block(node.body, env)
         except PyRaise as r:
-            sup = self.call_method(mgr, '__exit__', [VNative(r.exc.pycls), r.exc, NONE], {}, node)
+            sup = leave([VNative(r.exc.pycls), r.exc, NONE])
             if self.test(sup):
                 return
             raise
         except (ReturnEx, BreakEx, ContinueEx):
-            self.call_method(mgr, '__exit__', [NONE, NONE, NONE], {}, node)
+            leave([NONE, NONE, NONE])
             raise
         else:
-            self.call_method(mgr, '__exit__', [NONE, NONE, NONE], {}, node)
+            leave([NONE, NONE, NONE])
 
     prec_wide = False
     known_doubles: list = []
